@@ -37,6 +37,7 @@ var errC20Prior = errors.New("verif: earlier middleware failed")
 type c20Seen struct {
 	method, uri, auth, ctype string
 	hasAuth                  bool
+	injected                 bool // a header line the caller never set arrived (X-Injected)
 	body                     []byte
 	proto                    int
 }
@@ -67,7 +68,7 @@ func (o *c20Origin) ServeHTTP(w http.ResponseWriter, rq *http.Request) {
 		return
 	}
 	a, has := rq.Header["Authorization"]
-	sn := c20Seen{method: rq.Method, uri: rq.RequestURI, hasAuth: has, body: body, proto: rq.ProtoMajor, ctype: rq.Header.Get("Content-Type")}
+	sn := c20Seen{method: rq.Method, uri: rq.RequestURI, hasAuth: has, body: body, proto: rq.ProtoMajor, ctype: rq.Header.Get("Content-Type"), injected: rq.Header.Get("X-Injected") != ""}
 	if has {
 		sn.auth = strings.Join(a, "\x00")
 	}
